@@ -176,6 +176,15 @@ func (v *Val) ToReflect(rv reflect.Value, t *TyDef) (err error) {
 	case "time":
 		rv.Set(reflect.ValueOf(time.Unix(v.Sec, v.Nsec).UTC()))
 		return nil
+	case "ext":
+		// null.X{payload, Valid}: field 0 is the embedded sql.NullX whose field 0 is the payload
+		rv.Set(reflect.Zero(rv.Type()))
+		if v.P == nil {
+			return nil
+		}
+		inner := rv.Field(0)
+		inner.Field(1).SetBool(true)
+		return v.P.ToReflect(inner.Field(0), extPayload[t.Name])
 	case "ptr":
 		if v.P == nil {
 			rv.Set(reflect.Zero(rv.Type()))
@@ -284,6 +293,12 @@ func FromReflect(rv reflect.Value, t *TyDef) *Val {
 	case "time":
 		tm := rv.Interface().(time.Time)
 		return &Val{K: "T", Sec: tm.Unix(), Nsec: int64(tm.Nanosecond())}
+	case "ext":
+		inner := rv.Field(0)
+		if !inner.Field(1).Bool() {
+			return &Val{K: "p"}
+		}
+		return &Val{K: "p", P: FromReflect(inner.Field(0), extPayload[t.Name])}
 	case "ptr":
 		if rv.IsNil() {
 			return &Val{K: "p"}
